@@ -6,7 +6,6 @@ import (
 	"encoding/binary"
 	"fmt"
 	"io"
-	"os"
 	"regexp"
 	"strings"
 
@@ -252,9 +251,6 @@ func sqlprepOps(r *core.Run) {
 		{"rq1=1,E,Z,rq1=2,C,Z,xq1,D,C,Z", nil},
 	}
 	for _, f := range fixed {
-		if os.Getenv("C04_DEBUG_GENONLY") != "" {
-			break
-		}
 		line := "C04.sqlprep " + f.evs
 		r.Begin(line, true, "case:sql-prepared-script")
 		out := r.Do(line)
@@ -278,7 +274,17 @@ func sqlprepOps(r *core.Run) {
 		openBatch := false
 		cstmts := map[string]int{}  // client's view: protocol-level statements
 		cportal := map[string]int{} // portal → statement id
-		cportalOf := map[string]string{} // portal → name of its statement
+		// portal → names of ALL statements it was ever bound to: the registry lists a portal under every statement it was
+		// created from and drops it when any of them is deleted or parsed again (a client must close a named portal before
+		// binding it again, so for conforming clients "ever" = "now")
+		cportalOf := map[string]map[string]bool{}
+		dropPortalsOf := func(stn string) {
+			for po, set := range cportalOf {
+				if set[stn] {
+					delete(cportal, po)
+				}
+			}
+		}
 		tainted := map[string]bool{}
 		row := func(k int) {
 			evs = append(evs, "D")
@@ -388,15 +394,16 @@ func sqlprepOps(r *core.Run) {
 						delete(cstmts, nme)
 					}
 				}
-				for po, stn := range cportalOf {
-					if stn != "~" {
-						delete(cportal, po)
-						delete(cportalOf, po)
+				for po, set := range cportalOf {
+					for stn := range set {
+						if stn != "~" {
+							delete(cportal, po)
+							break
+						}
 					}
 				}
 			}
-			delete(cportal, "~")
-			delete(cportalOf, "~")
+			delete(cportal, "~") // the unnamed portal does not survive the Sync (the registry still lists it: cportalOf stays)
 			evs = append(evs, ev)
 			dbq = append(dbq, q, req{kind: 's'})
 		}
@@ -428,15 +435,16 @@ func sqlprepOps(r *core.Run) {
 				simple("a", req{kind: 'a'})
 			case x < 80:
 				nme := core.Pick(rd, extNames)
+				if rd.Chance(8) {
+					// a protocol-level statement under a name SQL-level PREPARE uses too: the registry is shared (the model
+					// has it); the little backend keeps the two apart, so such a script is correspondence only
+					nme = core.Pick(rd, sqlNames)
+					oracle = false
+				}
 				k := 1 + rd.Intn(7)
 				evs = append(evs, fmt.Sprintf("p%s=%d", nme, k))
 				cstmts[nme] = k
-				for po, stn := range cportalOf { // re-defining a statement drops the portals bound to the old one
-					if stn == nme {
-						delete(cportal, po)
-						delete(cportalOf, po)
-					}
-				}
+				dropPortalsOf(nme) // re-defining a statement drops the portals created from the old one
 				dbq = append(dbq, req{kind: 'o'})
 				openBatch = true
 			case x < 88:
@@ -448,7 +456,10 @@ func sqlprepOps(r *core.Run) {
 				po := core.Pick(rd, extNames)
 				evs = append(evs, fmt.Sprintf("b%s=%s", po, st))
 				cportal[po] = k
-				cportalOf[po] = st
+				if cportalOf[po] == nil {
+					cportalOf[po] = map[string]bool{}
+				}
+				cportalOf[po][st] = true
 				dbq = append(dbq, req{kind: 'o'})
 				openBatch = true
 			case x < 95:
@@ -466,7 +477,6 @@ func sqlprepOps(r *core.Run) {
 				openBatch = false
 				// the unnamed portal does not survive the Sync
 				delete(cportal, "~")
-				delete(cportalOf, "~")
 			}
 			drain(false)
 		}
